@@ -56,6 +56,8 @@ type lockWalker struct {
 	stack   map[string]bool
 	cache   map[string][][]lockEv
 	bad     []string
+	cur     []string // keys of the functions being walked, innermost last
+	auto    bool     // inline calls the tables do not name (autoResolve); off for walkers that look at one function body only
 	// markerOf, when set, turns selected AST nodes into pseudo events (acq=true, cls>=100) so that a fact can say
 	// "this access happens inside that critical section"
 	markerOf func(ast.Node) (int, bool)
@@ -114,6 +116,48 @@ func (w *lockWalker) lockOp(c *ast.CallExpr) (lockEv, bool) {
 		return lockEv{}, false
 	}
 	return lockEv{acq, cls}, true
+}
+
+// autoResolve covers calls the hand-written tables do not name, so that a helper split off an operation (or a
+// new helper that takes a lock) is walked like the code it came from instead of being passed over as lock-free:
+// a method called on the walked function's own receiver, a package-level function, and — over-approximating — every
+// unexported method of that name in the package when the receiver is some other expression.
+func (w *lockWalker) autoResolve(c *ast.CallExpr) ([]string, bool) {
+	p := pkgs[w.dir]
+	if p == nil || !w.auto {
+		return nil, false
+	}
+	switch f := c.Fun.(type) {
+	case *ast.Ident:
+		if fn := p.funcs[f.Name]; fn != nil && fn.Body != nil {
+			return []string{f.Name}, true
+		}
+	case *ast.SelectorExpr:
+		if len(w.cur) > 0 {
+			ck := w.cur[len(w.cur)-1]
+			if i := strings.Index(ck, "."); i > 0 {
+				if cf := p.funcs[ck]; cf != nil && cf.Recv != nil && len(cf.Recv.List) == 1 && len(cf.Recv.List[0].Names) == 1 {
+					if x, ok := f.X.(*ast.Ident); ok && x.Name == cf.Recv.List[0].Names[0].Name {
+						if fn := p.funcs[ck[:i]+"."+f.Sel.Name]; fn != nil && fn.Body != nil {
+							return []string{ck[:i] + "." + f.Sel.Name}, true
+						}
+						return nil, false
+					}
+				}
+			}
+		}
+		if !ast.IsExported(f.Sel.Name) {
+			var keys []string
+			for k, fn := range p.funcs {
+				if strings.HasSuffix(k, "."+f.Sel.Name) && fn.Body != nil {
+					keys = append(keys, k)
+				}
+			}
+			sort.Strings(keys)
+			return keys, len(keys) > 0
+		}
+	}
+	return nil, false
 }
 
 func (w *lockWalker) calleeKey(c *ast.CallExpr) (string, bool) {
@@ -191,6 +235,9 @@ func (w *lockWalker) call(c *ast.CallExpr, in []lockPath) []lockPath {
 	if w.resolve != nil {
 		keys, ok := w.resolve(c)
 		if !ok {
+			keys, ok = w.autoResolve(c)
+		}
+		if !ok {
 			return in
 		}
 		var progs [][]lockEv
@@ -213,6 +260,25 @@ func (w *lockWalker) call(c *ast.CallExpr, in []lockPath) []lockPath {
 	}
 	if k, ok := w.calleeKey(c); ok {
 		progs := w.fnPrograms(k)
+		var out []lockPath
+		for _, p := range in {
+			if p.state != 0 {
+				out = append(out, p)
+				continue
+			}
+			for _, pr := range progs {
+				q := p
+				q.evs = append(append([]lockEv(nil), p.evs...), pr...)
+				out = append(out, q)
+			}
+		}
+		return dedupe(out)
+	}
+	if keys, ok := w.autoResolve(c); ok {
+		var progs [][]lockEv
+		for _, k := range keys {
+			progs = append(progs, w.fnPrograms(k)...)
+		}
 		var out []lockPath
 		for _, p := range in {
 			if p.state != 0 {
@@ -469,7 +535,9 @@ func (w *lockWalker) fnPrograms(key string) [][]lockEv {
 		return [][]lockEv{{}}
 	}
 	w.stack[key] = true
+	w.cur = append(w.cur, key)
 	out := w.bodyPrograms(fn.Body.List)
+	w.cur = w.cur[:len(w.cur)-1]
 	delete(w.stack, key)
 	w.cache[key] = out
 	return out
@@ -581,7 +649,7 @@ func factsC17() {
 		"GetSession": "ActiveUser.GetSession", "closeAllSessions": "ActiveUser.closeAllSessions",
 		"NumSession": "ActiveUser.NumSession", "serveSession": "serveSession",
 	}
-	w := &lockWalker{dir: sv, classes: classes, listed: listed, stack: map[string]bool{}, cache: map[string][][]lockEv{}}
+	w := &lockWalker{dir: sv, classes: classes, listed: listed, stack: map[string]bool{}, cache: map[string][][]lockEv{}, auto: true}
 	order := []string{"userPanel.GetUser", "userPanel.GetBypassUser", "userPanel.TerminateActiveUser", "userPanel.isActive",
 		"userPanel.updateUsageQueue", "userPanel.updateUsageQueueForOne", "userPanel.commitUpdate",
 		"ActiveUser.CloseSession", "ActiveUser.GetSession", "ActiveUser.closeAllSessions", "ActiveUser.NumSession",
